@@ -425,6 +425,13 @@ def rule_orient(ctx):
                 lower = "Lower" in r_.e(calls[0]["args"][-1]) if calls[0]["args"] else None
                 chol = [x for x in walk(n["init"]) if x.get("k") == "MethodCall" and x["name"] in ("cholesky", "cholesky_into")]
                 if not chol:
+                    # `let decomp = covariance.cholesky()?; let sol = decomp.solve_triangular_into(..)?;`
+                    for z in walk(n["init"]):
+                        if z.get("k") == "Path" and "local" in z:
+                            for m_ in walk(w["body"]):
+                                if m_.get("k") == "LetStmt" and m_.get("init") is not None and m_["pat"].get("k") == "Bind" and m_["pat"]["local"] == z["local"]:
+                                    chol += [x for x in walk(m_["init"]) if x.get("k") == "MethodCall" and x["name"] in ("cholesky", "cholesky_into")]
+                if not chol:
                     lower = None
     wpar = None
     wln = w["line"]
